@@ -66,10 +66,18 @@ type DataflowParams struct {
 	Cons   string // id sums add
 	Alias  bool
 	Pre    bool   // a preflight stage in the top pipeline
+	// PreLast: the preflight call is written last in the pipeline body
+	// instead of first.
+	PreLast bool `json:",omitempty"`
 	Extra  string // "" chain (a downstream consumer of the result) ret-struct
 }
 
 func (d DataflowParams) String() string {
+	if d.PreLast {
+		e := d
+		e.PreLast = false
+		return strings.TrimSuffix(e.String(), "}") + " prelast=true}"
+	}
 	return fmt.Sprintf("df{kind=%s src=%s size=%d proj=%q map=%q wrap=%d dis=%q@%s narrow=%v cons=%s alias=%v pre=%v extra=%s}",
 		d.Kind, d.Src, d.Size, d.Proj, d.Map, d.Wrap, d.Dis, d.DisAt, d.Narrow, d.Cons, d.Alias, d.Pre, d.Extra)
 }
@@ -152,6 +160,27 @@ func narrowType(t *T) *T {
 // Dataflow builds the program for d, or returns nil when the combination is
 // not expressible.
 func Dataflow(d DataflowParams) *Program {
+	if d.PreLast && !d.Pre {
+		return nil
+	}
+	p := dataflow0(d)
+	if p != nil && d.PreLast {
+		for _, pl := range p.Pipelines {
+			if pl.Name != "TOP" {
+				continue
+			}
+			for i, c := range pl.Calls {
+				if c.Preflight {
+					pl.Calls = append(append(append([]*Call{}, pl.Calls[:i]...), pl.Calls[i+1:]...), c)
+					break
+				}
+			}
+		}
+	}
+	return p
+}
+
+func dataflow0(d DataflowParams) *Program {
 	p := baseProgram()
 	p.Desc = d.String()
 	srcT := kindType(d.Kind)
@@ -473,6 +502,12 @@ func DataflowFamily(maxDev int) []DataflowParams {
 														}
 														seen[d.String()] = true
 														out = append(out, d)
+														if pre {
+															// the same program with the preflight call written last
+															d.PreLast = true
+															seen[d.String()] = true
+															out = append(out, d)
+														}
 													}
 												}
 											}
